@@ -82,6 +82,11 @@ pub struct ServerState {
     /// what a read finds when nothing is queued: None = end of stream (0 bytes); Some(kind) = that error (a socket with a
     /// receive timeout, or in non-blocking mode, polled while the server is silent)
     pub empty_read_error: Option<io::ErrorKind>,
+    /// (start, period >= 2): among the read calls that find data, the start-th and every period-th after it are
+    /// interrupted (ErrorKind::Interrupted, nothing consumed), as a signal arriving during read(2) would do
+    pub interrupt_reads: Option<(usize, usize)>,
+    pub data_reads: usize,
+    pub interrupted: usize,
     /// accept the client's pubKeyAuth even when it does not unseal (a server that does not care, or cannot, verify it)
     pub lenient_pubkey: bool,
     /// after a faulted message: end the TLS session in an orderly way (close_notify) and say nothing more
@@ -245,6 +250,9 @@ impl ServerState {
             close_after_fault: false,
             lenient_pubkey: false,
             empty_read_error: None,
+            interrupt_reads: None,
+            data_reads: 0,
+            interrupted: 0,
             fail_write_when_events: None,
             fail_write_once: None,
             tls: None,
@@ -642,6 +650,14 @@ impl Duplex {
                 return Err(io::Error::new(kind, "nothing to read right now"));
             }
             return Ok(0);
+        }
+        if let Some((start, period)) = s.interrupt_reads {
+            let k = s.data_reads;
+            s.data_reads += 1;
+            if k >= start && (k - start) % period.max(2) == 0 {
+                s.interrupted += 1;
+                return Err(io::Error::new(io::ErrorKind::Interrupted, "injected: interrupted system call"));
+            }
         }
         let n = buf.len().min(s.out.len()).min(s.read_chunk.max(1));
         for b in buf.iter_mut().take(n) {
